@@ -1,0 +1,38 @@
+//go:build !verif
+
+package ecs
+
+import (
+	"sync"
+	"time"
+)
+
+// No-op counterparts of the simulation seams in verif_on.go.
+
+const (
+	verifBeforeLock uint8 = iota
+	verifInLock
+	verifAfterUnlock
+)
+
+const (
+	verifProbeTableRecycled uint8 = iota
+	verifProbeTableFreedCleanup
+	verifProbeTableFreedShrink
+	verifProbeTableGrow
+	verifProbeTableShrink
+	verifProbeColumnResetSmall
+	verifProbeColumnResetLarge
+	verifProbeCacheAdd
+	verifProbeCacheRemove
+	verifProbeChildrenMoved
+	verifProbeSwapRemove
+	verifProbeBatchIntoNonEmpty
+	verifProbeCount
+)
+
+func verifYield(_ uint8, _ *sync.Mutex) {}
+
+func verifSkew(start time.Time) time.Time { return start }
+
+func verifProbe(_ uint8) {}
